@@ -818,6 +818,58 @@ example : (runVote ⟨.confidence, none, 1⟩ [voterOf .permit 1 1, voterOf .oth
     = (runVote ⟨.confidence, none, 1⟩ [voterOf .permit 1 1, voterOf .block 1 1]).decision := by decide +kernel
 
 
+/-! ### A fractional count threshold is a share of the colony (round 7) -/
+
+/-- A fractional count threshold is a SHARE OF THE COLONY (idle and failed members count against), never "zero
+    permits": for every share `0 < t < 1` the count strategy is reached exactly when enough votes are active, at least
+    `t · len(colony)` members permit, and at least one does - for `QuorumSensing(strategy=THRESHOLD, threshold=t)`, for
+    `EmergencyQuorum(emergency_threshold=t)` and for `EmergencyQuorum()` with its default share.  (The number is a number:
+    the model has no notion of the Python type that carries it, and the correspondence / count table run every share as
+    float, Fraction and Decimal.) -/
+theorem c06_share_of_the_colony_in_counts (t : Rat) (ht0 : 0 < t) (ht1 : t < 1) (minVoters : Nat) (voters : List Voter) :
+    ((runVote ⟨.threshold, some t, minVoters⟩ voters).reached = true ↔
+      minVoters ≤ nP (collect voters) + nB (collect voters) ∧
+        t * (voters.length : Rat) ≤ (nP (collect voters) : Rat) ∧ 1 ≤ nP (collect voters)) ∧
+    (∀ cfg, emergencyCfg (some t) = some cfg → ((runVote cfg voters).reached = true ↔
+      emergencyMinVoters ≤ nP (collect voters) + nB (collect voters) ∧
+        t * (voters.length : Rat) ≤ (nP (collect voters) : Rat) ∧ 1 ≤ nP (collect voters))) ∧
+    (∃ cfg, emergencyDefaultCfg = some cfg ∧ 0 < emergencyDefaultThreshold ∧ emergencyDefaultThreshold < 1 ∧
+      ((runVote cfg voters).reached = true ↔
+        emergencyMinVoters ≤ nP (collect voters) + nB (collect voters) ∧
+          emergencyDefaultThreshold * (voters.length : Rat) ≤ (nP (collect voters) : Rat) ∧ 1 ≤ nP (collect voters))) := by
+  have key : ∀ (s : Rat) (mv : Nat), 0 < s → s < 1 →
+      ((runVote ⟨.threshold, some s, mv⟩ voters).reached = true ↔
+        mv ≤ nP (collect voters) + nB (collect voters) ∧
+          s * (voters.length : Rat) ≤ (nP (collect voters) : Rat) ∧ 1 ≤ nP (collect voters)) := by
+    intro s mv hs0 hs1
+    have hnn : NonNegThreshold ⟨.threshold, some s, mv⟩ := by
+      intro t' h; cases h; exact le_of_lt hs0
+    rw [run_reached_iff]
+    apply and_congr_right; intro _
+    simp only [StratReached]
+    rw [thresholdCount_le_iff _ hnn]
+    simp only [CountMet, ne_of_gt hs0, if_false, hs1, if_true]
+  have hdc : emergencyDefaultCfg = some ⟨.threshold, some emergencyDefaultThreshold, emergencyMinVoters⟩ := by
+    decide +kernel
+  have hd0 : 0 < emergencyDefaultThreshold := by decide +kernel
+  have hd1 : emergencyDefaultThreshold < 1 := by decide +kernel
+  refine ⟨key t minVoters ht0 ht1, ?_, ⟨_, hdc, hd0, hd1, key _ _ hd0 hd1⟩⟩
+  intro cfg hc
+  have : cfg = ⟨.threshold, some t, emergencyMinVoters⟩ := by
+    have h2 : emergencyCfg (some t) = some ⟨.threshold, some t, emergencyMinVoters⟩ := by
+      have hs : strategyOfName? emergencyStrategyName = some .threshold := by decide +kernel
+      have hp : emergencyPassesThreshold = true := by decide +kernel
+      simp [emergencyCfg, hs, hp]
+    rw [h2] at hc
+    exact (Option.some.inj hc).symm
+  rw [this]
+  exact key t _ ht0 ht1
+
+/-- 7 voters, a share of 3/10 (⌈2.1⌉ = 3 permits needed): one permit against six blocks is BLOCK, three permits PERMIT -/
+example : (runVote ⟨.threshold, some (3/10), 1⟩ (⟨.permit, .absent, 1, 1⟩ :: List.replicate 6 ⟨.block, .absent, 1, 1⟩)).decision = .block ∧
+    (runVote ⟨.threshold, some (3/10), 1⟩ (List.replicate 3 ⟨.permit, .absent, 1, 1⟩ ++ List.replicate 4 ⟨.block, .absent, 1, 1⟩)).decision = .permit := by
+  decide +kernel
+
 /-! ### The collection loop, and every point at which an answer can fail (round 7) -/
 
 /-- The collection loop of `run_vote` as written - per member `try: express → _protein_to_vote (action type,
